@@ -4,11 +4,17 @@
   Core-only imports (no Mathlib) so that it links as a `lean_exe`.
 -/
 import RdfModel.Driver.NQ
+import RdfModel.Driver.NQO
+import RdfModel.Driver.BlankNodes
 import RdfModel.Driver.Canon
 import RdfModel.Driver.RdfJson
 import RdfModel.Driver.Description
 import RdfModel.Driver.Dataset
 import RdfModel.Driver.Prefix
+import RdfModel.Driver.Ttl
+import RdfModel.Driver.TtlDoc
+import RdfModel.Driver.Xsd
+import RdfModel.Driver.IRI
 open RdfModel
 
 def dispatch (line : String) : String :=
@@ -24,6 +30,12 @@ def dispatch (line : String) : String :=
         else if comp = "pm" then Driver.Prefix.handle op args
         else if comp = "rj" then Driver.RdfJson.handle op args
         else if comp = "canon" then Driver.Canon.handle op args
+        else if comp = "ttl" then Driver.Ttl.handle op args
+        else if comp = "ttld" then Driver.TtlDoc.handle op args
+        else if comp = "xsd" then Driver.Xsd.handle op args
+        else if comp = "bn" then Driver.BlankNodes.handle op args
+        else if comp = "nqo" then Driver.NQO.handle op args
+        else if comp = "iri" then Driver.IRI.handle op args
         else none
       r.getD "bad-op"
     | _ => "bad-op"
